@@ -158,6 +158,7 @@ class Ctx(object):
         self.inc = {q: set() for q in self.ids}
         self.nodes = sorted(M.nodes, key=repr)
         self.selfloop = False
+        self.memo = {}
         for (a, b), S in M.pres.items():
             if a == b and S:
                 self.selfloop = True
@@ -284,7 +285,7 @@ def path_universe(tier, seed, heavy=True):
          pairs ever present (777 / 7637)                                                               -- complete
       C  self-loops: nodes {1,2,3}, pairs (1,1),(1,2),(2,3) [+ (2,1),(2,2) directed], instants {0,1,2}, every relation
          in which a self-loop is present, <= 4 (directed 3) cells (quick) / all (thorough)             -- complete
-      D  the relations of A / B with <= 2 cells (quick) / <= 2 pairs (thorough) moved to the instant sets
+      D  the relations of A / B with <= 2 cells (quick) / <= 3 cells (thorough) moved to the instant sets
          (10,11,12) (-3,-2,-1) (-1,0,1) (0,2,5) (1,3,4) (-4,-2,-1) and to string ids 'a','b','c'        -- complete
       E  seeded random relations: directed 3 nodes x 3 instants with >= 3 pairs; both classes 4 nodes x 4 instants
          (quick: 100 + 100) ; thorough adds 5 nodes x 5 instants                                       -- sampled
@@ -302,7 +303,7 @@ def path_universe(tier, seed, heavy=True):
             if any(a == b for (a, b) in r):
                 yield cls, r, 'C'
     for cls, base in (('DynGraph', A), ('DynDiGraph', B)):
-        small = [r for r in base if (sum(map(len, r.values())) <= 2 if tier == 'quick' else len(r) <= 2)]
+        small = [r for r in base if sum(map(len, r.values())) <= (2 if tier == 'quick' else 3)]
         for T in T_VARIANTS:
             tmap = dict(zip(T0, T))
             for r in small:
@@ -350,6 +351,14 @@ def windows(ids, invalid=False):
 def brute_paths(ctx, u, v, start, end):
     """every hop sequence that satisfies the conditions of C12 (readings R1-R3), as a set of tuples of hops"""
     s0, e0, W = ctx.window(start, end)
+    key = (u, s0, e0)
+    if key not in ctx.memo:
+        ctx.memo[key] = _brute_from(ctx, u, W)
+    out = ctx.memo[key]
+    return set(out if v is None else [p for p in out if p[-1][1] == v])
+
+
+def _brute_from(ctx, u, W):
     out = []
 
     def extend(path, a, b, i):
@@ -368,9 +377,7 @@ def brute_paths(ctx, u, v, start, end):
     for i, q in enumerate(W):
         for b in sorted(ctx.out(u, q), key=repr):
             extend([(u, b, q)], u, b, i)
-    if v is not None:
-        out = [p for p in out if p[-1][1] == v]
-    return set(out)
+    return out
 
 
 def expected_paths(ctx, u, v, start, end):
@@ -573,7 +580,7 @@ def classify_extra(ctx, extra, start, end):
     return ''
 
 
-def c13_eval(G, ctx, fn, u=None, v=None, start=None, end=None, min_t=None, sample=1, np_seed=0):
+def c13_eval(G, ctx, fn, u=None, v=None, start=None, end=None, min_t=None, sample=1, np_seed=0, cache=None):
     """-> (problems [(check, detail)], number of expected paths)"""
     sx = suffix(ctx)
     if fn == 'trp':
@@ -582,6 +589,8 @@ def c13_eval(G, ctx, fn, u=None, v=None, start=None, end=None, min_t=None, sampl
         if sample < 1:
             np.random.seed(np_seed)
         res, exc = call_trp(G, u, v, start, end, sample)
+        if cache is not None and v is None and sample == 1:
+            cache[(u, start, end)] = (res, exc)
         call = 'time_respecting_paths(G,%r,%r,%r,%r%s)' % (u, v, start, end, '' if sample == 1 else ',sample=%r' % sample)
         if exc:
             return [('C13.raises.%s' % exc + ('.sample' if sample < 1 else '') + sx,
@@ -594,7 +603,7 @@ def c13_eval(G, ctx, fn, u=None, v=None, start=None, end=None, min_t=None, sampl
         pr = []
         if sample < 1:
             if extra:
-                pr.append(('C13.sample_not_subset' + sx, '%s returned %r, not among the full result' % (call, extra[:4])))
+                pr.append(('C13.sample_not_subset' + classify_extra(ctx, extra, start, end) + sx, '%s returned %r, not among the full result' % (call, extra[:4])))
             return pr, n
         if start is not None and not ctx.present(u, start) and extra:
             return [('C13.not_empty_when_u_absent_at_start' + sx, '%s returned %r although %r has no interaction at %r' % (call, extra[:4], u, start))], n
@@ -621,7 +630,7 @@ def c13_eval(G, ctx, fn, u=None, v=None, start=None, end=None, min_t=None, sampl
     # (a) exactly what the single-source function returns (the text's own formulation)
     single, bad = {}, None
     for x in srcs:
-        r, exc = call_trp(G, x, None, start, end)
+        r, exc = cache[(x, start, end)] if cache and (x, start, end) in cache else call_trp(G, x, None, start, end)
         if exc:
             bad = exc
             break
@@ -666,8 +675,9 @@ def c13_paths_complete(tier, seed):
             continue
         sk = state_key(G)
         qs = queries(ctx, tier, rng, tag)
+        cache = {}
         for (u, v, s, e) in qs:
-            pr, n = c13_eval(G, ctx, 'trp', u, v, s, e)
+            pr, n = c13_eval(G, ctx, 'trp', u, v, s, e, cache=cache)
             col.seen((sk, 'trp', u, v, s, e), n > 0, {'class': cls, 'history': h, 'call': ['trp', u, v, s, e]})
             for check, detail in pr:
                 kinds.add(check, cls, h, detail, fn='trp', u=u, v=v, start=s, end=e)
@@ -680,7 +690,7 @@ def c13_paths_complete(tier, seed):
                 for check, detail in pr:
                     kinds.add(check, cls, h, detail, fn='trp', u=u, v=v, start=s, end=e, sample=smp, np_seed=ns)
         for (s, e, m) in all_calls(ctx, tier, rng, tag):
-            pr, n = c13_eval(G, ctx, 'all', start=s, end=e, min_t=m)
+            pr, n = c13_eval(G, ctx, 'all', start=s, end=e, min_t=m, cache=cache)
             col.seen((sk, 'all', s, e, m), n > 0)
             for check, detail in pr:
                 kinds.add(check, cls, h, detail, fn='all', start=s, end=e, min_t=m)
